@@ -25,7 +25,8 @@ theorem takeWhile_eq_self {α} {p : α → Bool} {l : List α} (h : ∀ a ∈ l,
 
 /-- the component lists _makeMarkToLigaAttachments builds for one glyph -/
 def ligBM (km : List (String × String)) (as : List NA) : List (List BAnchor) :=
-  (List.range (maxNat ((ligEvents km as).filterMap (·.number)))).map (fun j => compOf km (ligEvents km as) (j + 1))
+  (List.range (maxNat ((ligEvents km (plainOf as)).filterMap (·.number)))).map
+    (fun j => compOf km (ligEvents km (plainOf as)) (j + 1))
 
 theorem ligAtts_eq {i : Input} {al : AList} {mg : List String} {km : List (String × String)}
     {att : String × List (List BAnchor)} (h : att ∈ ligAtts i al mg km) :
@@ -40,12 +41,12 @@ theorem ligAtts_eq {i : Input} {al : AList} {mg : List String} {km : List (Strin
       exact ⟨e.2, he, rfl⟩
 
 theorem ligAtts_mem {i : Input} {al : AList} {mg : List String} {km : List (String × String)} {g : String} {as : List NA}
-    (h : (g, as) ∈ al) (hmg : g ∉ mg) (hb : ligOK i g = true) (hne : ligEvents km as ≠ []) :
+    (h : (g, as) ∈ al) (hmg : g ∉ mg) (hb : ligOK i g = true) (hne : ligEvents km (plainOf as) ≠ []) :
     (g, ligBM km as) ∈ ligAtts i al mg km := by
   refine mem_filterMap.mpr ⟨(g, as), h, ?_⟩
   have h1 : (mg.contains g || !ligOK i g) = false := by simp [hmg, hb]
-  have h2 : (ligEvents km as).isEmpty = false := by
-    cases hh : ligEvents km as with
+  have h2 : (ligEvents km (plainOf as)).isEmpty = false := by
+    cases hh : ligEvents km (plainOf as) with
     | nil => exact absurd hh hne
     | cons _ _ => rfl
   simp only [h1, Bool.false_eq_true, if_false, h2]
@@ -64,10 +65,10 @@ theorem mem_compOf_of {km : List (String × String)} {evs : List NA} {n : Nat} {
   exact mem_filterMap.mpr ⟨a, mem_filter.mpr ⟨ha, by simp [hn]⟩, by simp [hc]⟩
 
 theorem ligBM_get {km : List (String × String)} {as : List NA} {j : Nat} {a : NA}
-    (ha : a ∈ ligEvents km as) (hn : a.number = some (j + 1)) :
-    (ligBM km as)[j]? = some (compOf km (ligEvents km as) (j + 1)) := by
+    (ha : a ∈ ligEvents km (plainOf as)) (hn : a.number = some (j + 1)) :
+    (ligBM km as)[j]? = some (compOf km (ligEvents km (plainOf as)) (j + 1)) := by
   unfold ligBM
-  have hle : j + 1 ≤ maxNat ((ligEvents km as).filterMap (·.number)) :=
+  have hle : j + 1 ≤ maxNat ((ligEvents km (plainOf as)).filterMap (·.number)) :=
     le_maxNat (mem_filterMap.mpr ⟨a, ha, hn⟩)
   rw [getElem?_map, getElem?_range (by omega)]
   rfl
@@ -75,7 +76,7 @@ theorem ligBM_get {km : List (String × String)} {as : List NA} {j : Nat} {a : N
 /-- mark-to-ligature: for a pair `k_N` / `_k` on a non-mark glyph that passes the ligature filter and does not
     declare component N empty -/
 theorem lig_attach {i : Input} {al : AList} (w : ALwf i al) {b m : String} {ab am : NA} (p : Pair al b m ab am)
-    (hok : markOK i m = true) (j : Nat) (hnum : ab.number = some (j + 1)) (hnmg : b ∉ mgOf i al)
+    (hok : markOK i m = true) (hpl : ab.ctx = none) (j : Nat) (hnum : ab.number = some (j + 1)) (hnmg : b ∉ mgOf i al)
     (hlig : ligOK i b = true)
     (hnonull : ∀ as, (b, as) ∈ al → ∀ a ∈ as, a.number = some (j + 1) → a.key ≠ "")
     (feat : String) (inc : String → Bool) (mf : NA → Bool) (hinc : inc b = true) (hmf : mf ab = true) :
@@ -84,16 +85,16 @@ theorem lig_attach {i : Input} {al : AList} (w : ALwf i al) {b m : String} {ab a
   obtain ⟨recs, hcls, r, hr, hrg⟩ := pair_class w p hok
   obtain ⟨as', has', hab'⟩ := pair_prune_b w p
   -- the anchor reaches the component bookkeeping
-  have hev : ab ∈ ligEvents (kmOf i al) as' := mem_filter.mpr ⟨hab', by simp [hnum, hcl]⟩
-  have hnn : ∀ a' ∈ ligEvents (kmOf i al) as', a'.number = some (j + 1) → a'.key ≠ "" := by
+  have hev : ab ∈ ligEvents (kmOf i al) (plainOf as') := mem_filter.mpr ⟨mem_plainOf_of hab' hpl, by simp [hnum, hcl]⟩
+  have hnn : ∀ a' ∈ ligEvents (kmOf i al) (plainOf as'), a'.number = some (j + 1) → a'.key ≠ "" := by
     intro a' ha' hn'
     obtain ⟨_, as, has, e⟩ := mem_prune has'
     simp only at e
     have : a' ∈ as := by
-      have := (mem_filter.mp ha').1
+      have := (mem_plainOf (mem_filter.mp ha').1).1
       rw [e] at this; exact (mem_filter.mp this).1
     exact hnonull as has a' this hn'
-  have hcomp : (⟨ab, "MC" ++ am.name⟩ : BAnchor) ∈ compOf (kmOf i al) (ligEvents (kmOf i al) as') (j + 1) :=
+  have hcomp : (⟨ab, "MC" ++ am.name⟩ : BAnchor) ∈ compOf (kmOf i al) (ligEvents (kmOf i al) (plainOf as')) (j + 1) :=
     mem_compOf_of hev hnum hcl hnn
   have hget := ligBM_get hev hnum
   have hatt0 : (b, ligBM (kmOf i al) as') ∈ laOf i al := ligAtts_mem has' hnmg hlig (ne_nil_of_mem hev)
@@ -114,7 +115,7 @@ theorem lig_attach {i : Input} {al : AList} (w : ALwf i al) {b m : String} {ab a
     rw [all_eq_true] at hall
     have hm := hall _ (mem_map.mpr ⟨_, mem_of_getElem? hget, rfl⟩)
     have : (⟨ab, "MC" ++ am.name⟩ : BAnchor) ∈
-        (compOf (kmOf i al) (ligEvents (kmOf i al) as') (j + 1)).filter (fun x => grp.contains x.cls) :=
+        (compOf (kmOf i al) (ligEvents (kmOf i al) (plainOf as')) (j + 1)).filter (fun x => grp.contains x.cls) :=
       mem_filter.mpr ⟨hcomp, by simpa using hcn⟩
     rw [isEmpty_iff] at hm
     rw [hm] at this; simp at this
@@ -168,7 +169,7 @@ theorem lig_attach {i : Input} {al : AList} (w : ALwf i al) {b m : String} {ab a
     rw [all_eq_true] at hall
     have hm := hall _ (mem_map.mpr ⟨_, mem_map.mpr ⟨_, mem_of_getElem? hget, rfl⟩, rfl⟩)
     have : (⟨ab, "MC" ++ am.name⟩ : BAnchor) ∈
-        ((compOf (kmOf i al) (ligEvents (kmOf i al) as') (j + 1)).filter (fun x => grp.contains x.cls)).filter (fun x => mf x.a) :=
+        ((compOf (kmOf i al) (ligEvents (kmOf i al) (plainOf as')) (j + 1)).filter (fun x => grp.contains x.cls)).filter (fun x => mf x.a) :=
       mem_filter.mpr ⟨mem_filter.mpr ⟨hcomp, by simpa using hcn⟩, hmf⟩
     rw [isEmpty_iff] at hm
     rw [hm] at this; simp at this
